@@ -495,7 +495,7 @@ def run(ctx):
     if time.time() - t_start > budget:
       ctx.log('time budget reached after %d schedules' % k)
       break
-    cfg = gen_cfg(rng, big=ctx.thorough and rng.random() < 0.3)
+    cfg = gen_cfg(rng, big=rng.random() < (0.3 if ctx.thorough else 0.1))
     sdesc, fac = gen_strategy(rng, len(cfg['workers']), est, gates)
     r = execute(ctx, cfg, lm, env, fac)
     est = max(50, (est * 3 + len(r.ctl.trace)) // 4)
